@@ -54,12 +54,18 @@ fn pt_from(v: &Value) -> Pt {
 /// whole-token magnitudes (in units of 1e-3 tokens so that 1.5 is representable)
 fn magnitudes(full: bool) -> Vec<u128> {
     if full {
-        vec![1_000, 1_500, 10_000, 1_000_000, 1_000_000_000, 1_000_000_000_000, 37_000_000_000_000_000]
+        vec![1_000, 1_500, 10_000, 1_000_000, 1_000_000_000, 1_000_000_000_000, 37_000_000_000_000_000, MAG_MAX]
     } else {
-        vec![1_000, 1_500, 10_000, 1_000_000_000, 1_000_000_000_000]
+        vec![1_000, 1_500, 10_000, 1_000_000_000, 1_000_000_000_000, MAG_MAX]
     }
 }
+/// marker magnitude: "as many tokens as fit in 2^100 base units"
+const MAG_MAX: u128 = u128::MAX;
+
 fn base_units(milli_tokens: u128, dec: u8) -> Option<u128> {
+    if milli_tokens == MAG_MAX {
+        return Some(1u128 << 100);
+    }
     // milli_tokens * 10^dec / 1000
     let v = b(milli_tokens) * pow10(dec as u32) / b(1000);
     if v > b(1u128 << 100) || v.is_zero() {
@@ -167,10 +173,20 @@ pub fn check_point(p: &Pt, cx: &mut Cx) {
 
 /// LP mint: minted * D0 <= S * (D1 - D0) + dust, D over *normalised* reserves
 pub fn check_mint(p: &Pt, cx: &mut Cx) {
-    // reuse the point: reserves (offer_pool, ask_pool), deposit (offer, offer scaled to the other asset's decimals / 3)
+    // reuse the point: reserves (offer_pool, ask_pool); deposit shapes: (offer, the same token amount / 3 of
+    // the other asset) and, once per reserve point, heavily one-sided deposits
     let d0a = p.offer;
     let d1a = (b(p.offer) * pow10(p.dec.1 as u32) / pow10(p.dec.0 as u32) / b(3)).low_u128().max(1);
-    if d1a > (1u128 << 100) {
+    check_mint_deposit(p, d0a, d1a, cx);
+    if p.offer == 1 {
+        for (x, y) in [(1u128, p.ask_pool), (p.offer_pool, 1u128), (1, (p.ask_pool / 10).max(1)), (p.offer_pool, p.ask_pool)] {
+            check_mint_deposit(p, x, y, cx);
+        }
+    }
+}
+
+fn check_mint_deposit(p: &Pt, d0a: u128, d1a: u128, cx: &mut Cx) {
+    if d1a > (1u128 << 100) || d0a > (1u128 << 100) {
         return;
     }
     let supply = {
@@ -206,7 +222,12 @@ pub fn check_mint(p: &Pt, cx: &mut Cx) {
         rhs = b(supply) * ((dn1 + sd).saturating_sub(d0_lo));
         cx.count("mint:slope_dust_used");
     }
-    let sig = if p.dec.0 != p.dec.1 { "unequal-decimals-deposit" } else { "" };
+    // the known finding covers exactly "minted from the invariant over raw amounts" with unequal decimals
+    let sig = if p.dec.0 != p.dec.1 && lhs > rhs && crate::refmath::explained_by_raw_invariant(p.amp, [p.offer_pool, p.ask_pool], [p.offer_pool + d0a, p.ask_pool + d1a], supply, minted) {
+        "unequal-decimals-deposit"
+    } else {
+        ""
+    };
     cx.check_sig("deposit.mints_at_most_invariant_growth", sig, lhs <= rhs, || {
         format!("reserves ({},{}) decimals {:?} amp {}: deposit ({},{}) with supply {} mints {} but D_norm {} -> {}", p.offer_pool, p.ask_pool, p.dec, p.amp, d0a, d1a, supply, minted, dn0, dn1)
     });
